@@ -28,6 +28,8 @@ type irDecl struct {
 	A   string   `json:"a,omitempty"`
 	V   string   `json:"v,omitempty"`
 	Pat string   `json:"pat,omitempty"`
+	C   string   `json:"c,omitempty"`  // cdef: the class
+	CS  []string `json:"cs,omitempty"` // class: the classes an object takes
 }
 
 type irAlphabet struct {
@@ -104,6 +106,25 @@ func (d irDecl) render(style int) string {
 		return fmt.Sprintf("%s %s %s%s", strings.Join(d.S, "."), arrow(d.SA, d.DA), strings.Join(d.D, "."), val(d.V))
 	case "eref":
 		return fmt.Sprintf("(%s %s %s)[%d].%s: %s", strings.Join(d.S, "."), arrow(d.SA, d.DA), strings.Join(d.D, "."), d.I, d.A, d.V)
+	case "cdef":
+		switch style % 3 {
+		case 1:
+			return fmt.Sprintf("classes: {\n  %s: {\n    %s: %s\n  }\n}", d.C, d.A, d.V)
+		case 2:
+			return fmt.Sprintf("classes.%s: { %s: %s }", d.C, d.A, d.V)
+		}
+		return fmt.Sprintf("classes.%s.%s: %s", d.C, d.A, d.V)
+	case "class":
+		v := d.CS[0]
+		if len(d.CS) > 1 {
+			v = "[" + strings.Join(d.CS, "; ") + "]"
+		}
+		if style%2 == 1 {
+			return fmt.Sprintf("%s: { class: %s }", strings.Join(d.P, "."), v)
+		}
+		return strings.Join(d.P, ".") + ".class: " + v
+	case "classnull":
+		return strings.Join(d.P, ".") + ".class: null"
 	case "glob":
 		return strings.Join(append(append([]string{}, d.P...), d.Pat, d.A), ".") + ": " + d.V
 	case "enull":
@@ -133,7 +154,17 @@ func irObs(b proj.Board) tr.M {
 		if o.Parent != "" {
 			par = proj.KeyPath(o.Parent)
 		}
-		objs = append(objs, tr.M{"path": o.Path, "spell": o.Spell, "parent": par, "label": o.Label, "shape": o.Shape, "attrs": kvPairs(o.Attrs)})
+		at := map[string]string{}
+		for k, v := range o.Attrs {
+			if k != "class" { // the class assignment itself is not compared, its effect on the attributes is
+				at[k] = v
+			}
+		}
+		cls := []string{}
+		if c := o.Attrs["class"]; c != "" {
+			cls = strings.Split(c, ";")
+		}
+		objs = append(objs, tr.M{"path": o.Path, "spell": o.Spell, "parent": par, "label": o.Label, "shape": o.Shape, "attrs": kvPairs(at), "cls": cls})
 	}
 	edges := []tr.M{}
 	for _, e := range b.Edges {
@@ -246,9 +277,9 @@ func driveIR(c *Ctx) error {
 			st := make([]int, ln)
 			for j := range p {
 				switch r := c.Rng.Intn(10); {
-				case k%3 == 0 && r < 6:
+				case k%3 == 0 && r < 6 && len(edgeish) > 0:
 					p[j] = edgeish[c.Rng.Intn(len(edgeish))]
-				case k%3 == 1 && r < 3:
+				case k%3 == 1 && r < 3 && len(nullish) > 0:
 					p[j] = nullish[c.Rng.Intn(len(nullish))]
 				default:
 					p[j] = 1 + c.Rng.Intn(n)
@@ -274,8 +305,8 @@ func driveIR(c *Ctx) error {
 			if d.K == "eref" || d.K == "enull" {
 				hasEdgeOp = true
 			}
-			if d.K == "null" || d.K == "anull" {
-				hasNull = true
+			if d.K == "null" || d.K == "anull" || d.K == "class" || d.K == "cdef" {
+				hasNull = true // (counts towards C10's non-trivial programs)
 			}
 			if d.K == "glob" {
 				hasGlob = true
